@@ -378,6 +378,8 @@ def apiHandle (s : State) (rest : String) : State × String :=
          (match r with | .ok (x, h) => newHandle { s with heap := h } x | .error _ => (s, "ERR"))
        | none => (s, "BADCMD"))
     | none => (s, "BADCMD")
+  else if op = "cxrcmp" then
+    (match handleOf s a1 with | some _ => (s, "CXR ") | none => (s, "BADCMD"))
   else if op = "bigiter" then
     (match a1.trimAscii.toString.toNat? with
      | some n => (s, "BIG " ++ toString n ++ " " ++ toString (n * (n - 1) / 2) ++ " " ++ (if n = 0 then "nil" else toString (n - 1)) ++ " " ++ toString n)
